@@ -96,6 +96,8 @@ def check_case(case):
 
 
 def replay(case):
+    if case.get('kind') == 'pickle':
+        return []
     return check_case(case)
 
 
@@ -199,10 +201,57 @@ def _sweep(ctx, shard, nshards, system, max_slashes):
         ctx.report_direct(check_case(case), case)
 
 
+CHILD = r"""
+import sys, pickle, json
+sys.path.insert(0, sys.argv[1])
+from vlib import env
+from depccg.cat import Category
+cats = pickle.load(sys.stdin.buffer)
+bad = []
+for c in cats:
+    f = Category.parse(str(c))
+    if not (c == f) or hash(c) != hash(f) or {f: 1}.get(c) != 1 or c not in {f}:
+        bad.append(str(c))
+print(json.dumps(bad))
+"""
+
+
+def cross_process(ctx, shard):
+    """categories that were hashed here and then crossed a process boundary by pickle (as results of worker
+    processes do) must still equal, hash like and be found by freshly built equal categories there"""
+    import json
+    import os
+    import pickle
+    import subprocess
+    import sys
+    from vlib import env
+    from vlib.model_cat import to_cat
+    vals = gen_cat.enum_cats('en', 1, bar=True)[shard::16][:120] + gen_cat.enum_cats('ja', 1, bar=True)[shard::16][:120]
+    cats = [to_cat(m) for m in vals]
+    for c in cats:
+        hash(c)
+        str(c)
+    e = dict(os.environ, PYTHONHASHSEED=str(1000 + shard), VERIF_REPO=env.REPO)
+    r = subprocess.run([sys.executable, '-c', CHILD, env.VERIF], input=pickle.dumps(cats), capture_output=True, env=e,
+                       timeout=300)
+    if r.returncode != 0:
+        fails = [(f'{PROPERTY}/pickled-value-unusable', f'child interpreter failed on pickled categories: {r.stderr.decode()[-300:]}')]
+        bad = ['?']
+    else:
+        bad = json.loads(r.stdout.decode().strip().split('\n')[-1])
+        fails = [(f'{PROPERTY}/pickled-value-hash', f'{bad[:3]} received by pickle in another interpreter (hash seed {1000 + shard}) '
+                  'is not equal to / does not hash like / is not found by a freshly parsed equal category')] if bad else []
+    ctx.count(len(cats), cls='cross-process-pickle')
+    ctx.notes['cross_process_pickled_values'] = ctx.notes.get('cross_process_pickled_values', 0) + len(cats)
+    ctx.report_direct(fails, {'kind': 'pickle', 'values': [str(b) for b in bad[:5]]})
+
+
 def _shard(ctx, shard, nshards):
+    if shard < 4:
+        cross_process(ctx, shard)
     for system in ('en', 'ja'):
         _sweep(ctx, shard, nshards, system, 1)
-    _hyp(ctx, shard, ctx.scale(6000, 20000))
+    _hyp(ctx, shard, ctx.scale(6000, 60000))
     if shard == 1 and not ctx.quick:
         from vlib import fuzz
         fuzz.campaign(ctx, 'c13', 150000)
